@@ -19,6 +19,7 @@ import (
 	"os"
 	"strings"
 	"testing"
+	"time"
 
 	"github.com/bfenetworks/bfe/bfe_balance/backend"
 	"github.com/bfenetworks/bfe/bfe_balance/bal_slb"
@@ -445,10 +446,60 @@ func TestC01(t *testing.T) {
 	b1 := b
 	b1.Weight = 1
 	c01Run(t, rec, c01Plan{Path: "rr", Members: []beSpec{a, b}, Periods: 3, Updates: []c01Upd{{"reweight", []beSpec{a, b1}}}}, "witness")
+	c01SlowStartFinished(t, rec)
 	rapid.Check(t, func(rt *rapid.T) {
 		p, regime := genC01Plan(rt)
 		c01Run(rt, rec, p, "regime="+regime)
 	})
+}
+
+// c01SlowStartFinished covers "slow start ... finished" with one deterministic
+// history: a=1,b=3 loaded, slow start 1 s configured, reload to a=1,b=1, b goes
+// down and is brought back the way the health checker does it (SetRestart(true),
+// SetAvail(true)), the slow-start second passes, then 400 picks. With equal
+// configured weights each backend is owed 200 of them; a generous +-20 absorbs
+// the transient right after the ramp. (The sleep only lets the ramp finish; a
+// longer sleep changes nothing.)
+func c01SlowStartFinished(tb ev.TB, rec *ev.Rec) {
+	a, b := beSpec{"a", "10.0.0.1", 80, 1}, beSpec{"b", "10.0.0.2", 80, 3}
+	conf, err := loadSub([]beSpec{a, b})
+	if err != nil {
+		tb.Fatalf("harness: %v", err)
+	}
+	brr := bal_slb.NewBalanceRR("s")
+	brr.Init(conf)
+	brr.SetSlowStart(1)
+	for i := 0; i < 8; i++ {
+		brr.Balance(bal_slb.WrrSmooth, nil)
+	}
+	b.Weight = 1
+	conf2, err := loadSub([]beSpec{a, b})
+	if err != nil {
+		tb.Fatalf("harness: %v", err)
+	}
+	brr.Update(conf2)
+	hb := rrHandles(brr)[b.key()][0]
+	hb.SetAvail(false)
+	brr.Balance(bal_slb.WrrSmooth, nil)
+	hb.SetRestart(true)
+	hb.SetAvail(true)
+	brr.Balance(bal_slb.WrrSmooth, nil) // starts the ramp
+	time.Sleep(1200 * time.Millisecond)
+	cnt := map[string]int{}
+	for i := 0; i < 400; i++ {
+		be, err := brr.Balance(bal_slb.WrrSmooth, nil)
+		if err != nil {
+			rec.Fail(tb, "error-with-eligible", map[string]any{"case": "slow-start-finished"}, "Balance failed: %v", err)
+			return
+		}
+		cnt[be.AddrInfo]++
+	}
+	rec.Case("slowstart|a=1,b=3->b=1|restart b|400", true, "slow-start-finished")
+	if d := cnt[b.key()] - 200; d > 20 || d < -20 {
+		rec.Fail(tb, "slowstart-ends-at-old-weight", map[string]any{"counts": cnt, "credits_now": rrCredits(brr),
+			"history": "Init a=1,b=3; SetSlowStart(1); Update a=1,b=1; b down; b SetRestart(true)+SetAvail(true); 1.2 s; 400 WrrSmooth picks"},
+			"after slow start finished, 400 picks over a=1,b=1 gave %v (each is owed 200): the ramp ended at the weight configured before the reload", cnt)
+	}
 }
 
 func c01Run(tb ev.TB, rec *ev.Rec, p c01Plan, class string) {
